@@ -994,6 +994,15 @@ def gen_nodeid(rng, n_random):
         s[pos] = rng.choice("gGzZ -_+/xé \n.")
         for pref in ["", "0x"]:
             steps.append({"op": "nodeid", "kind": "json", "text": cps('"' + pref + "".join(s) + '"'), "tag": "json_nonhex"})
+    for c in range(0, 128):
+        ch = chr(c)
+        if ch in "0123456789abcdefABCDEF":
+            continue
+        digs = [rng.choice(hexd) for _ in range(64)]
+        pos = rng.choice([0, 1, 62, 63, rng.randrange(64)])
+        lit = ("\\u%04x" % c) if (c < 0x20 or ch in '"\\' or c == 0x7f) else ch
+        body = "".join(digs[:pos]) + lit + "".join(digs[pos + 1:])
+        steps.append({"op": "nodeid", "kind": "json", "text": cps('"' + rng.choice(["", "0x"]) + body + '"'), "tag": "json_nonhex_ascii"})
     for doc in ['""', '"0x"', 'null', '123', '[]', '{}', '"0x' + "ab" * 32 + '" ', ' "' + "cd" * 32 + '"', '"\\u0030x' + "ab" * 32 + '"',
                 '"0x' + "ab" * 32 + '"x', '"' + "AB" * 32 + '"', '"0x' + "Ab" * 32 + '"', '"0x' + "ab" * 31 + 'a"', '"0x' + "ab" * 32 + 'a"']:
         steps.append({"op": "nodeid", "kind": "json", "text": cps(doc), "tag": "json_doc"})
@@ -1120,6 +1129,12 @@ def gen_seq(rng, kts=("k256", "libsecp", "ed", "comb"), seqs=None, calls_per=Non
         for sq in [[255] * 8, [255] * 7 + [254], [1] + [0] * 7, [1] + [0] * 6, [255] * 7, [128] + [0] * 7] + [rand_seq(rng) for _ in range(18)]:
             steps.append({"op": "build", "h": "b", "kt": kt, "signer": own, "obs": "full", "calls": [{"m": "seq", "seq": sq}, {"m": "udp4", "port": 1}],
                           "rebuild": rng.random() < 0.3, "calls2": []})
+        # minimal records (id and key only) with sequence numbers of every encoded length: the signed content then has
+        # every length 50..58 (secp256k1) / 47..55 (ed25519), across the short / long list-header boundary at 55 / 56
+        for sq in [[], [1], [200], [1, 0], [1, 0, 0], [1, 0, 0, 0], [255] * 4, [0x12, 0x34, 0x56, 0x78], [1, 0, 0, 0, 0], [1] + [0] * 5, [1] + [0] * 6, [255] * 7, [1] + [0] * 7]:
+            steps.append({"op": "build", "h": "b", "kt": kt, "signer": own, "obs": "full", "calls": [{"m": "seq", "seq": sq}]})
+            steps.append({"op": "call", "h": "b", "m": "set_seq", "args": {"seq": sq[:-1] + [(sq[-1] + 1) % 256] if sq else [1]}, "signer": own, "obs": "full"})
+            steps.append({"op": "decode", "kts": KT_ALL, "input": {"rec": {"seq": sq, "pairs": sorted([[B("id"), enc_str(B("v4"))], [B(pk_key(own)), enc_str(KEYS[own]["pk"])]], key=lambda p: bytes(p[0])), "sig": {"by": own}}}, "tag": "valid"})
         out.append({"sid": sid(), "steps": steps})
     return out
 
@@ -1340,6 +1355,28 @@ def gen_eq(rng, n, kts=("k256", "libsecp", "ed", "comb")):
                 if x <= y:
                     steps.append({"op": "compare", "a": x, "b": y})
         out.append({"sid": sid(), "steps": steps})
+    # same sequence number, DIFFERENT pairs whose concatenated key / value bytes coincide (a key/value boundary moved, a
+    # one-byte value continuing a key, a value split over two pairs): content comparison must see the difference
+    fams = [
+        ([("a", "b"), ("cd", [5])], [("ab", "c"), ("d", [5])]),
+        ([("a", "b"), ("c", "d")], [("abc", "d")]),
+        ([("k", "xy")], [("kx", "y")]),
+        ([("m", "n"), ("o", "p")], [("m", "nop")]),
+        ([("t", [1]), ("u", [2])], [("t", [1, 0x75, 2])]),
+        ([("q", "")], [("q", [0x80])]),
+    ]
+    steps = []
+    for kt in kts:
+        own = signers_for(kt)[0]
+        basep = [[B("id"), enc_str(B("v4"))], [B(pk_key(own)), enc_str(KEYS[own]["pk"])]]
+        for fi, (pa, pb) in enumerate(fams):
+            def mk(ps):
+                return sorted(basep + [[B(k), enc_str(B(v) if isinstance(v, str) else v)] for k, v in ps], key=lambda p: bytes(p[0]))
+            steps.append({"op": "decode", "h": "x", "kt": kt, "input": {"rec": {"seq": [7], "pairs": mk(pa), "sig": {"by": own}}}, "tag": "eq_boundary_shift"})
+            steps.append({"op": "decode", "h": "y", "kt": kt, "input": {"rec": {"seq": [7], "pairs": mk(pb), "sig": {"by": own}}}, "tag": "eq_boundary_shift"})
+            steps.append({"op": "compare", "a": "x", "b": "y"})
+            steps.append({"op": "compare", "a": "y", "b": "x"})
+    out.append({"sid": sid(), "steps": steps})
     return out
 
 
@@ -1426,6 +1463,14 @@ def gen_fail(rng, obs="full", part=None):
             a["pk_of"] = signer
         base = [[B("id"), enc_str(B("v4"))], [B(pk_key(own)), enc_str(KEYS[own]["pk"])], [B("ip"), enc_str([10, 0, 0, 9])],
                 [B("udp"), enc_uint(1)], [B("tcp"), enc_uint(65535)], [B("client"), enc_list([enc_str(B("c")), enc_str(B("1"))])]]
+        # half-present sockets: an ip6 without ports / a udp6 port without address / no tcp next to ip + udp
+        half = (ci + len(mode)) % 4
+        if half == 1:
+            base.append([B("ip6"), enc_str([0xfe, 0x80] + [0] * 13 + [9])])
+        elif half == 2:
+            base.append([B("udp6"), enc_uint(30303)])
+        elif half == 3:
+            base = [p for p in base if bytes(p[0]) != b"tcp"]
         seq = U64MAX if mode == "seqmax" else [rng.choice([1, 127, 255])]
         if mode == "size":
             base = pad_to(rng, seq, sorted(base, key=lambda p: bytes(p[0])), rng.choice([298, 299, 300]), key="zpad") or base
@@ -1498,6 +1543,14 @@ def gen_api(rng, n):
             for _ in range(max(1, n // 8)):
                 steps.append({"op": "pubkey", "kt": kt, "signer": signer, "probe": rand_bytes(rng, rng.choice([0, 1, 32, 100, 300]))})
             steps.append({"op": "build", "h": "e", "kt": kt, "signer": signer, "empty": True, "calls": [], "obs": "full"})
+    # the builder with a malformed or ill-typed raw value under every reserved key (incl. the public-key key of the OTHER
+    # scheme, which the builder does not overwrite), each record fully observed if the builder hands one out
+    bsteps = []
+    for kt, own in [("k256", "k1"), ("libsecp", "k2"), ("ed", "e1"), ("comb", "k1"), ("comb", "e1")]:
+        for key in ["secp256k1", "ed25519", "id", "ip", "ip6", "tcp", "udp6", "client"]:
+            for raw in [[0xb8], [0x81], [], [0x81, 0x05], [0x83, 1, 2], [0xc1], [0x05, 0x06], [0xb8, 0x01, 0x41]]:
+                bsteps.append({"op": "build", "h": "m", "kt": kt, "signer": own, "obs": "full",
+                               "calls": [{"m": "udp4", "port": 9}, {"m": "add_value_rlp", "key": B(key), "raw": raw}]})
     # the public-key parsers on valid keys, near-valid keys and junk of every length
     P = 0xFFFFFFFFFFFFFFFFFFFFFFFFFFFFFFFFFFFFFFFFFFFFFFFFFFFFFFFEFFFFFC2F
     cand = [KEYS[k]["pk"] for k in ("k1", "k2", "k3", "k4", "e1", "e2")] + [[5] + KEYS[k]["pk"][1:] for k in ("k1", "k4")]
@@ -1523,7 +1576,7 @@ def gen_api(rng, n):
     for _ in range(n):
         steps.append({"op": "keygen", "scheme": "secp"})
         steps.append({"op": "keygen", "scheme": "ed"})
-    out = [{"sid": sid(), "steps": steps}]
+    out = [{"sid": sid(), "steps": steps}, {"sid": sid(), "steps": bsteps}]
     for i in range(n):
         kt = KT_ALL[i % 4]
         sigs = signers_for(kt)
